@@ -34,7 +34,13 @@ META = {
             'trimmed), asynchronous hand-off (C03/C04: async runs drain through exec()+quit or resetOwnThread with a '
             'live QCoreApplication), syslog (the sink is configured but cannot be captured offline: only its presence '
             'in the handler list and the other outputs being unaffected are observed), embedded NUL characters '
-            '(console sinks print C strings), qFatal (aborts the process; belongs to C11).',
+            '(console sinks print C strings), qFatal (aborts the process; belongs to C11).  On this platform the platform log '
+            '(platform_std_log, default true) is a second StdErrSink: a configuration with the stderr key AND the platform log '
+            'writes each record twice to the stderr stream - once per configured output, which is what the property asks; the '
+            'model keeps the two outputs apart (OStderr / OPlatform) and predicts their interleaving.  Asynchronous streams are '
+            'kept within one virtual day: a backlog processed after the date changed makes daily rotation name files out of '
+            'order (DESIGN section 5 F7, C09).  strip_sgr is proved NOT idempotent (C19_strip_sgr_idempotent_refuted, same as '
+            'QString::remove); the partial statement is proved instead.  Thorough tier adds ASan+UBSan+leak-checked children and coqchk.',
     'design_ref': 'DESIGN.md section 4, C19',
     'engine': 'coq+extraction+harness',
 }
@@ -201,7 +207,8 @@ def oneline_line(c):
 
 
 # ------------------------------------------------------------------------------------ running a child
-ENV = {'LC_ALL': 'C.UTF-8', 'PATH': os.environ.get('PATH', '/usr/bin:/bin'), 'HOME': '/tmp'}
+ENV = {'LC_ALL': 'C.UTF-8', 'PATH': os.environ.get('PATH', '/usr/bin:/bin'), 'HOME': '/tmp',
+       'ASAN_OPTIONS': 'detect_leaks=1', 'UBSAN_OPTIONS': 'print_stacktrace=1'}
 
 
 def spawn(cmd, tty_out, tty_err, timeout=30):
@@ -514,9 +521,39 @@ def lexing_probe(model, impl):
         shutil.rmtree(work, ignore_errors=True)
 
 
+def case_of(case, cid=0):
+    """a case as written by describe() (replay files, corpus/C19/cases.json) back into generator form"""
+    c = dict(case)
+    c['msgs'] = [{'t': m['type'], 'w': m['thread'], 'cat': m['category'], 'text': m['text'], 'time': m['time']} for m in case['messages']]
+    c['id'] = cid
+    c['tty'] = tuple(c['tty'])
+    if c['front'] == 'ini':
+        c['pattern'] = [tuple(p) if isinstance(p, list) else p for p in c['pattern']]
+        c['rx'] = tuple(c['rx']) if c['rx'] else None
+        c['spell'] = dict(case.get('values_written', {}))
+        for k in BKEYS:
+            if c['b'].get(k) is not None and k not in c['spell']:
+                c['spell'][k] = 'true' if c['b'][k] else 'false'
+    return c
+
+
+def corpus():
+    d = os.path.join(vlib.VERIF, 'corpus', 'C19')
+    hs, cs = [], []
+    try:
+        hs = [l.strip() for l in open(os.path.join(d, 'install_histories.txt')) if l.strip() and not l.startswith('#')]
+    except FileNotFoundError:
+        pass
+    try:
+        cs = [case_of(c, 900000 + i) for i, c in enumerate(json.load(open(os.path.join(d, 'cases.json'))))]
+    except FileNotFoundError:
+        pass
+    return hs, cs
+
+
 def install_leg(chk, model, impl, thorough):
     rng = chk.rng
-    hs = []
+    hs = list(corpus()[0])
     alpha = 'IR123D'
     for _ in range(20000 if thorough else 5000):
         k = rng.randint(1, 12)
@@ -586,6 +623,7 @@ def run():
 
     keys = ['filter_rules', 'regexp_filter', 'message_pattern', 'syslog_ident', 'path', 'max_file_size', 'max_file_count'] + BKEYS
     cases = []
+    corpus_cases = corpus()[1]
     fixed = [set(), set(keys)] + [{k} for k in keys] + [{'stdout', 'stderr'}, {'stdout', 'stderr', 'path'}, {'stdout_color', 'stderr_color'},
                                                           {'path', 'message_pattern', 'filter_rules'}, {'path', 'async'}, {'stdout', 'async', 'path'}]
     for sub in fixed:
@@ -598,6 +636,9 @@ def run():
         if len(c['keys']) == 1 and c['keys'][0] in BKEYS and c['keys'][0] != 'platform_std_log' and c['id'] < len(fixed):
             c['b'][c['keys'][0]] = True; c['spell'][c['keys'][0]] = 'true'
     ol = [gen_oneline_case(rng, 100000 + i) for i in range(800 if thorough else 240)]
+    cases = cases + [c for c in corpus_cases if c['front'] == 'ini']
+    ol = [c for c in corpus_cases if c['front'] == 'oneline'] + ol
+    cov['corpus_cases'] = len(corpus_cases)
     work = tempfile.mkdtemp(prefix='c19_')
     stats = {'trimmed': 0}
     try:
@@ -664,6 +705,22 @@ def run():
                 chk.samples.append({'ini_case': describe(cs[len(fixed) + 1]), 'observed': small(obs[len(fixed) + 1])})
             else:
                 chk.samples.append({'oneline_case': describe(cs[0]), 'observed': small(obs[0])})
+        if thorough:
+            # the same children under AddressSanitizer + UndefinedBehaviorSanitizer (+ leak check at exit)
+            san = vlib.build_harness('config', 'san')
+            n_san = 0
+            for front, cs in (('ini', cases[:300]), ('oneline', ol[:150])):
+                failing, disagree, obs, mo = compare_front(chk, front, cs, model, san, work, {'trimmed': 0})
+                n_san += len(cs)
+                for c, why, o in failing[:1]:
+                    chk.fail('sanitizer build: child process of a %s configuration failed (%s)' % (front, '; '.join(why)),
+                             {'kind': 'sanitizer', 'front': front, 'why': why, 'case': describe(c), 'observed': small(o),
+                              'stderr_tail': o['err'].decode('utf-8', 'replace')[-1500:]}, kind='sanitizer')
+                if disagree and not failing:
+                    c, why, o = disagree[0]
+                    chk.broke('sanitizer build differs from the model on a %s configuration: %s' % (front, why),
+                              {'kind': 'correspondence', 'front': front, 'variant': 'san', 'case': describe(c), 'observed': small(o)})
+            cov['sanitizer_children'] = n_san
     finally:
         shutil.rmtree(work, ignore_errors=True)
     cov['retention_trimmed_cases'] = stats['trimmed']
@@ -699,14 +756,8 @@ def replay(path):
     if not case:
         print(json.dumps(r, indent=1)); return 0
     impl = vlib.build_harness('config')
-    c = dict(case)
-    c['msgs'] = [{'t': m['type'], 'w': m['thread'], 'cat': m['category'], 'text': m['text'], 'time': m['time']} for m in case['messages']]
-    c['id'] = 0
-    c['tty'] = tuple(c['tty'])
+    c = case_of(case)
     if c['front'] == 'ini':
-        c['pattern'] = [tuple(p) if isinstance(p, list) else p for p in c['pattern']]
-        c['rx'] = tuple(c['rx']) if c['rx'] else None
-        c['spell'] = dict(case.get('values_written', {}))
         line = ini_line(c)
         _, tx, _ = vlib.run_lines(model, [line], ['initext'])
         texts = tuple(unhx16(x) for x in tx[0].split())
